@@ -72,3 +72,81 @@ X("numpy.ediff1d", "c07:to_begin#q+to_end#qlist", lambda g: ([g.a(shape=(6,))], 
   params={"to_begin", "to_end"})
 X("numpy.interp", "c07:left#q+right#q", lambda g: (g.real_only() or ([g.q(np.array([-1.0, 2.5, 9.0]), "B"), g.q(np.array([0.0, 1.0, 4.0, 8.0]), "B"), g.a(shape=(4,))],
                                                                        {"left": _fv(g), "right": _fv(g)})), tags=SD, shapes=("1d",), dtypes=("f8", "f4"), params={"left", "right"})
+
+
+# ---- binary ufuncs whose two operands share one dimension (the shared catalogue holds array functions, methods and operators,
+# not the ufuncs themselves): unit-preserving (add ... remainder), comparisons, arctan2, plus multiply/divide as controls whose
+# operands are independent.  Forms: plain call, out= buffer, .outer, one 0-d operand, .at (in place); and *compositions* of a
+# reduction of each operand with a binary step (np.sum(x) + np.max(y) ...), kind "op", function name "c07.reduce-then-combine".
+# With C07's 'mixed' and 'stale' unit families the second operand is written in another unit / in a stale snapshot of the unit.
+from vf.gen.npcatalog import Skip as _Skip
+
+IDX = {"index-like"}
+PR = {"product"}
+_PRESERVING = ("add", "subtract", "maximum", "minimum", "fmax", "fmin", "hypot", "fmod", "remainder")
+_COMPARE = ("less", "less_equal", "greater", "greater_equal", "equal", "not_equal")
+_USHAPES = ("1d", "2d", "0d", "e1")
+
+
+def _pair(g, uf, second_shape=None):
+    if uf in ("hypot", "fmod", "remainder", "arctan2"):
+        g.real_only()
+    a = g.a()
+    lo = 1 if uf in ("fmod", "remainder") else (0 if uf in _COMPARE else -9)
+    hi = 3 if uf in _COMPARE else 9
+    if uf in _COMPARE:
+        a = g.a(lo=0, hi=3)
+    b = Q(g.raw(a.data.shape if second_shape is None else second_shape, lo, hi, a.data.dtype), "A")
+    return a, b
+
+
+def _outbuf(uf, a, b):
+    with np.errstate(all="ignore"):
+        try:
+            r = np.asarray(getattr(np, uf)(a.data, b.data))
+        except Exception:
+            raise _Skip("bare call raises")
+    return Q(np.zeros(r.shape, r.dtype), "A", role="out")
+
+
+for _uf in _PRESERVING + _COMPARE + ("arctan2",):
+    _tags = SD if _uf in _PRESERVING else (IDX if _uf in _COMPARE else set())
+    _f = getattr(np, _uf)
+    X("numpy." + _uf, "base", lambda g, u=_uf: list(_pair(g, u)), tags=_tags, shapes=_USHAPES, params={"x1", "x2"})
+    X("numpy." + _uf, "c07:scalar-second", lambda g, u=_uf: list(_pair(g, u, ())), tags=_tags, shapes=("1d", "2d"), params={"x1", "x2"})
+    X("numpy." + _uf, "c07:scalar-first", lambda g, u=_uf: list(_pair(g, u, ()))[::-1], tags=_tags, shapes=("1d", "2d"), params={"x1", "x2"})
+    X("numpy." + _uf, "c07:outer", lambda g, u=_uf: (g.need("1d") or list(_pair(g, u, (3,)))), tags=_tags, shapes=("1d",), params={"x1", "x2", "outer"},
+      invoke=lambda a, k, f=_f: f.outer(*a, **k))
+    if _uf in _PRESERVING:
+        X("numpy." + _uf, "out", lambda g, u=_uf: (lambda a, b: ([a, b], {"out": _outbuf(u, a, b)}))(*_pair(g, u)), tags=_tags | {"out"}, shapes=("1d", "2d"),
+          params={"x1", "x2", "out"})
+    if _uf in ("add", "subtract", "maximum", "minimum"):
+        X("numpy." + _uf, "c07:at", lambda g, u=_uf: (g.need("1d") or (lambda a, b: [a, np.array([0, 2, 2]), b])(*_pair(g, u, (3,)))), tags=_tags | {"mutator"},
+          shapes=("1d",), params={"x1", "x2", "at"}, invoke=lambda a, k, f=_f: f.at(*a, **k))
+for _uf in ("multiply", "divide"):
+    X("numpy." + _uf, "base", lambda g: [g.a(), g.a("B", lo=1, hi=5)], tags=PR, shapes=_USHAPES, params={"x1", "x2"})
+    X("numpy." + _uf, "c07:same-slot", lambda g: [g.a(), g.a(lo=1, hi=5)], tags=PR, shapes=_USHAPES, params={"x1", "x2"})
+
+
+def _two(g, lo=-9):
+    g.real_only()
+    if len(g.dims()) < 1 or 0 in g.dims():
+        raise _Skip("needs elements")
+    return [g.a(), g.a(lo=lo)]
+
+
+_COMPOSE = {
+    "sum+max": lambda x, y: np.sum(x) + np.max(y),
+    "min-mean": lambda x, y: np.min(x) - np.mean(y),
+    "mean<y": lambda x, y: np.mean(x) < y,
+    "x-median": lambda x, y: x - np.median(y),
+    "maximum(cumsum,y)": lambda x, y: np.maximum(np.cumsum(x, axis=-1), y),
+    "hypot(ptp,std)": lambda x, y: np.hypot(np.ptp(x), np.std(y)),
+    "x.sum()+y.max()": lambda x, y: x.sum() + y.max(),
+    "sort(x)>=y.mean()": lambda x, y: np.sort(x, axis=-1) >= y.mean(),
+    "sum(x)==sum(y)": lambda x, y: np.sum(x) == np.sum(y),
+    "sum*max": lambda x, y: np.sum(x) * np.max(y),
+}
+for _n, _fn in _COMPOSE.items():
+    _t = IDX if any(c in _n for c in "<>=") else (PR if "*" in _n else SD)
+    X("c07.reduce-then-combine", _n, _two, kind="op", tags=_t, shapes=("1d", "2d"), invoke=lambda a, k, f=_fn: f(*a))
